@@ -53,7 +53,6 @@ LEVEL_TEXT["C19"] = ("seeded exploration of operation sequences (contiguous and 
                      "the backend calls; every answer must be one the backend alone could have given during the call")
 
 NOT_CLAIMED = {
- "C06": "check under construction (scenario S2: one real server, adversarial peers, crash/error sweep over every stable-store operation)",
  "C15": "check under construction (scenario S3: real FileSnapshotStore on the simulated file system)",
  "C16": "check under construction (scenario S3: real NetworkTransport on simulated streams)",
 }
@@ -69,3 +68,16 @@ PROFILES["C19"] = {"level": "exploration", "level_text": LEVEL_TEXT["C19"],
                            "concurrently. Two runs are distinct when the hash of their operation log (operations with arguments and results) differs.",
                    "components": {"real_code": ["log_cache.go"], "stubs": ["wrapped LogStore (reference map with injected errors before/after effect)"],
                                   "replaced": ["goroutine scheduling at backend calls (seeded chooser)"]}}
+
+LEVEL_TEXT["C06"] = ("fault enumeration within sampled histories: one real server with real stores on the simulated disk receives a generated sequence of RequestVote / RequestPreVote / "
+                     "AppendEntries messages (terms 1-13, two members and an outsider as senders, up-to-date / stale / ahead candidate logs, leadership-transfer flag, retransmissions); the "
+                     "sequence is run fault-free to count its K stable-store operations and then re-run 3K times with a crash before, a crash right after, and an error returned by each of "
+                     "them, restarting from the durable image; plus the whole-cluster exploration profile. Oracles: one grant per (voter, term) over all incarnations, grant only to an "
+                     "up-to-date voter, terms in responses and CurrentTerm() monotone across restarts, pre-votes leave the durable term and vote untouched")
+PROFILES["C06"] = {"level": "fault_enumeration", "level_text": LEVEL_TEXT["C06"],
+                   "scenarios": [{"scenario": "C06", "profile": "C06", "quick_runs": 4000, "quick_budget_s": 35, "thorough_runs": 400000, "thorough_budget_s": 700},
+                                 {"scenario": "", "profile": "C01", "quick_runs": 1200, "quick_budget_s": 25, "thorough_runs": 200000, "thorough_budget_s": 500}],
+                   "rule": "an evaluation is one generated message sequence together with all its fault variants (S2: fault-free + crash-before / crash-after / error at every "
+                           "stable-store operation) or one whole-cluster run (S1). An S2 evaluation is non-trivial when the fault-free run performed stable-store operations and at least "
+                           "one vote was granted; S1 as for the other checks. Distinct = different hash of the message sequence (S2) or of the abstract-state trajectory (S1).",
+                   "technique": "deterministic simulation; crash and error points enumerated over every stable-store operation of each sampled message sequence"}
